@@ -101,8 +101,13 @@ def run(pid, tier, seed):
             last = locs[-1]
             ly = time.gmtime(last).tm_year
             end_of_year = calendar.timegm((ly, 12, 31, 23, 59, 59, 0, 0, 0))
+            start_of_year = calendar.timegm((ly, 1, 1, 0, 0, 0, 0, 0, 0))
             mt_local = rng.choice([last, last + 1, min(end_of_year, last + 86400 * 3), end_of_year - rng.randrange(0, 3600)])
             mt_local = min(max(mt_local, last), end_of_year)      # (in the last message's year, by the property's own premise)
+            if fi % 4 == 3:
+                # ... which may be EARLIER in that year than the last messages (a file restored or copied with an older time
+                # stamp, a header time taken from elsewhere): the time supplies the year, nothing more
+                mt_local = max(start_of_year, rng.choice([last - 86400 * 3, last - 86400 * 40, start_of_year + rng.randrange(0, 86400)]))
             mtime = mt_local - tz_min * 60
             # (every stored form comes round with every block size: not left to chance)
             CONTS = ["plain", "gz", "bz2", "tar", "xz", "gz-fname", "lz4", "gz-mtime0", "plain"]
@@ -136,11 +141,11 @@ def run(pid, tier, seed):
             # a window in absolute dates selects by the inferred dates
             if len(locs) >= 3 and all(locs[j] <= locs[j + 1] for j in range(len(locs) - 1)):
                 # (windows only on chronological series: C03's scope)
-                k = rng.randrange(len(locs))
-                a = true_utc[k]
-                sel = [e for u, e in zip(true_utc, exp_lines) if u >= a]
-                cases.append((Case(files, base + ["-a", gen.fmt_ts(a, 0, 0, 0), arg], b"".join(sel), mtimes=mtimes, tz_args=False,
-                                   note={"tz": tzs, "container": cont, "wraps": wraps, "blocksz": B, "window_from": k, "walk": dict(walk, A=a)}), "window"))
+                for k in [rng.randrange(len(locs))] + ([len(locs) - 1, len(locs) - 2] if fi % 4 == 3 else []):
+                    a = true_utc[k]
+                    sel = [e for u, e in zip(true_utc, exp_lines) if u >= a]
+                    cases.append((Case(files, base + ["-a", gen.fmt_ts(a, 0, 0, 0), arg], b"".join(sel), mtimes=mtimes, tz_args=False,
+                                       note={"tz": tzs, "container": cont, "wraps": wraps, "blocksz": B, "window_from": k, "walk": dict(walk, A=a)}), "window"))
         # merge of two year-less files across a New Year
         for mi in range(6 if tier == "quick" else 60):
             y = rng.choice([2022, 2024])
